@@ -1,9 +1,160 @@
+import PbBss.Model.Em
+import PbBss.Model.Num
 import Driver.Util
-/-! line-protocol operations of the `Em` models (stub: filled in by the owner of these models) -/
+/-! line-protocol operations of the `Em` models (one EM iteration from a given model, step-wise).
+
+common header (tokens 1..):  F K N D rule uniform G  grp[N] slice[N] s[N]
+  N = number of observations (all leading indices together), `slice n < F` its leading index,
+  `grp n < G` its weight-tying group, rule 0 = mean / 1 = unitNorm, uniform 1 = weights fixed to 1/K.
+then per operation:
+  gmm-sph / gmm-diag : y[N*D] weight[K*N] mean[F*K*D] var[F*K] | var[F*K*D]
+  watson             : y[N*D cx] weight[K*N] mode[K*D cx] kappa[K] lognorm[K]                 (F = 1)
+  cacg               : nrm floor  z[N*D cx] weight[K*N] vecs[K*D*D cx] vals[K*D]               (F = 1)
+output: groups separated by " | " :
+  L  Lmethod | posterior[K*N] | new weight[K*N] | new component parameters … -/
+open PbBss PbBss.Em
 namespace Driver
 
+def tinyE : Float := 2.2250738585072014e-308
+def epsE : Float := 1e-10
+def log2piE : Float := Float.log (2 * 3.141592653589793)
+
+def cx (a : Array String) (off i : Nat) : CF := ⟨fl a off (2*i), fl a off (2*i+1)⟩
+
+def fin2 {n m : Nat} (f : Fin n → Fin m → Float) : List Float :=
+  (List.finRange n).flatMap fun i => (List.finRange m).map fun j => f i j
+
+def cxs (z : CF) : List Float := [z.re, z.im]
+
+structure Hdr where
+  F : Nat
+  K : Nat
+  N : Nat
+  D : Nat
+  rule : WeightRule
+  uniform : Bool
+  G : Nat
+  off : Nat      -- first token after grp/slice/s
+
+def hdr (a : Array String) : Hdr :=
+  let N := tokNat a 3
+  ⟨tokNat a 1, tokNat a 2, N, tokNat a 4, if tokNat a 5 == 0 then .mean else .unitNorm, tokNat a 6 == 1,
+   tokNat a 7, 8 + 3 * N⟩
+
+/-- everything an op prints that does not depend on the family's parameter type -/
+def stepCommon {Θ Y : Type} {K N : Nat} (fam : Family Θ Y Float) (h : Hdr) (tie : Tying N)
+    (s : Fin N → Float) (y : Fin N → Y) (θ : Mixture Θ Float (K+1) N) :
+    String × Mixture Θ Float (K+1) N :=
+  let L := logLik fam s θ y
+  let Lm := logLikMethod fam θ y
+  let γ := (memo2S (eStep tinyE fam θ y)).run
+  -- `emStep` = `mStep` of the tabulated E-step
+  let θ' := emStep tinyE fam h.rule tie epsE s y θ
+  (fmtFloats [L, Lm] ++ " | " ++ fmtFloats (fin2 γ) ++ " | " ++ fmtFloats (fin2 θ'.weight), θ')
+
+def toMat {D : Nat} (m : Fin D → Fin D → CF) : Num.Mat :=
+  Array.ofFn (n := D) fun i => Array.ofFn (n := D) fun j => ⟨(m i j).re, (m i j).im⟩
+
+/-- `np.linalg.eigh` replaced by the Jacobi routine of `Model/Num.lean` (ascending eigenvalues) -/
+def eighJacobi {D : Nat} (m : Fin D → Fin D → CF) : (Fin D → Fin D → CF) × (Fin D → Float) :=
+  let r := Num.eigh D (toMat m)
+  ((memo2S fun i j => let c := r.2.get i.val j.val; (⟨c.re, c.im⟩ : CF)).run, (memoS fun e => r.1[e.val]!).run)
+
 def opsEm (a : Array String) : Option String :=
-  match a[0]! with
-  | _ => none
+  let h := hdr a
+  match h.K, h.F with
+  | 0, _ => none
+  | _, 0 => none
+  | K' + 1, F' + 1 =>
+    let N := h.N; let D := h.D
+    let tie : Tying N := ⟨h.uniform, h.G + 1, (memoS fun n => Fin.ofNat (h.G + 1) (tokNat a (8 + n.val))).run⟩
+    let s : Fin N → Float := (memoS fun n => fl a (8 + 2 * N) n.val).run
+    let sl : Fin N → Fin (F' + 1) := (memoS fun n => Fin.ofNat (F' + 1) (tokNat a (8 + N + n.val))).run
+    let o := h.off
+    match a[0]! with
+    | "gmm-sph" =>
+      let yv : Fin N → Fin D → Float := (memo2S fun n d => fl a o (n.val * D + d.val)).run
+      let y : Fin N → Fin (F' + 1) × (Fin D → Float) := (memoS fun n => (sl n, yv n)).run
+      let ow := o + N * D
+      let om := ow + (K' + 1) * N
+      let ov := om + (F' + 1) * (K' + 1) * D
+      let fam := sliced (F := F' + 1) (sphFamily D tinyE log2piE)
+      let w := (memo2S fun (k : Fin (K' + 1)) (n : Fin N) => fl a ow (k.val * N + n.val)).run
+      let mu := (memo2S fun (k : Fin (K' + 1)) (f : Fin (F' + 1)) =>
+        (memoS fun (d : Fin D) => fl a om ((f.val * (K' + 1) + k.val) * D + d.val)).run).run
+      let vr := (memo2S fun (k : Fin (K' + 1)) (f : Fin (F' + 1)) => fl a ov (f.val * (K' + 1) + k.val)).run
+      let θ : Mixture (Fin (F' + 1) → SphG Float D) Float (K' + 1) N := ⟨w, fun k f => ⟨mu k f, vr k f⟩⟩
+      let (out, θ') := stepCommon fam h tie s y θ
+      let means := (List.finRange (F' + 1)).flatMap fun f => (List.finRange (K' + 1)).flatMap fun k =>
+        (List.finRange D).map fun d => (θ'.comp k f).mean d
+      let vars := (List.finRange (F' + 1)).flatMap fun f => (List.finRange (K' + 1)).map fun k => (θ'.comp k f).var
+      some (out ++ " | " ++ fmtFloats means ++ " | " ++ fmtFloats vars)
+    | "gmm-diag" =>
+      let yv : Fin N → Fin D → Float := (memo2S fun n d => fl a o (n.val * D + d.val)).run
+      let y : Fin N → Fin (F' + 1) × (Fin D → Float) := (memoS fun n => (sl n, yv n)).run
+      let ow := o + N * D
+      let om := ow + (K' + 1) * N
+      let ov := om + (F' + 1) * (K' + 1) * D
+      let fam := sliced (F := F' + 1) (diagFamily D tinyE log2piE)
+      let w := (memo2S fun (k : Fin (K' + 1)) (n : Fin N) => fl a ow (k.val * N + n.val)).run
+      let mu := (memo2S fun (k : Fin (K' + 1)) (f : Fin (F' + 1)) =>
+        (memoS fun (d : Fin D) => fl a om ((f.val * (K' + 1) + k.val) * D + d.val)).run).run
+      let vr := (memo2S fun (k : Fin (K' + 1)) (f : Fin (F' + 1)) =>
+        (memoS fun (d : Fin D) => fl a ov ((f.val * (K' + 1) + k.val) * D + d.val)).run).run
+      let θ : Mixture (Fin (F' + 1) → DiagG Float D) Float (K' + 1) N := ⟨w, fun k f => ⟨mu k f, vr k f⟩⟩
+      let (out, θ') := stepCommon fam h tie s y θ
+      let means := (List.finRange (F' + 1)).flatMap fun f => (List.finRange (K' + 1)).flatMap fun k =>
+        (List.finRange D).map fun d => (θ'.comp k f).mean d
+      let vars := (List.finRange (F' + 1)).flatMap fun f => (List.finRange (K' + 1)).flatMap fun k =>
+        (List.finRange D).map fun d => (θ'.comp k f).var d
+      some (out ++ " | " ++ fmtFloats means ++ " | " ++ fmtFloats vars)
+    | "watson" =>
+      let y : Fin N → Fin D → CF := (memo2S fun n d => cx a o (n.val * D + d.val)).run
+      let ow := o + 2 * N * D
+      let om := ow + (K' + 1) * N
+      let ok := om + 2 * (K' + 1) * D
+      let ol := ok + (K' + 1)
+      -- the externals of the M-step are not evaluated here: the scatter matrices are printed instead and the
+      -- harness checks the PCA / spline contract of the code's next iterate against them
+      let fam : Family (Watson Float CF D) (Fin D → CF) Float :=
+        watsonFamily D (fun _ => (fun _ => 0, 0)) (fun x => x) (fun x => x)
+      let w := (memo2S fun (k : Fin (K' + 1)) (n : Fin N) => fl a ow (k.val * N + n.val)).run
+      let md := (memo2S fun (k : Fin (K' + 1)) (d : Fin D) => cx a om (k.val * D + d.val)).run
+      let θ : Mixture (Watson Float CF D) Float (K' + 1) N :=
+        ⟨w, (memoS fun k => (⟨md k, fl a ok k.val, fl a ol k.val⟩ : Watson Float CF D)).run⟩
+      let (out, _) := stepCommon fam h tie s y θ
+      let γ := (memo2S (eStep tinyE fam θ y)).run
+      let covs := (List.finRange (K' + 1)).flatMap fun k =>
+        let wk : Fin N → Float := (memoS fun n => γ k n * s n).run
+        let den : CF := ⟨vsum wk, 0⟩
+        let sc := outerSum (α := Float) wk y
+        (List.finRange D).flatMap fun d => (List.finRange D).flatMap fun e => cxs (sc d e / den)
+      some (out ++ " | " ++ fmtFloats covs)
+    | "cacg" =>
+      match D with
+      | 0 => none
+      | D' + 1 =>
+        let nrm : CovNorm := match tokNat a o with | 0 => .eigenvalue | 1 => .trace | _ => .none
+        let floor := tokFloat a (o + 1)
+        let oz := o + 2
+        let z : Fin N → Fin (D' + 1) → CF := (memo2S fun n d => cx a oz (n.val * (D' + 1) + d.val)).run
+        let ow := oz + 2 * N * (D' + 1)
+        let ou := ow + (K' + 1) * N
+        let ol := ou + 2 * (K' + 1) * (D' + 1) * (D' + 1)
+        let fam := cacgFamily D' (eighJacobi (D := D' + 1)) nrm floor tinyE
+        let w := (memo2S fun (k : Fin (K' + 1)) (n : Fin N) => fl a ow (k.val * N + n.val)).run
+        let θ : Mixture (Cacg Float CF (D' + 1)) Float (K' + 1) N :=
+          ⟨w, (memoS fun k => (⟨(memo2S fun d e => cx a ou ((k.val * (D' + 1) + d.val) * (D' + 1) + e.val)).run,
+                                (memoS fun e => fl a ol (k.val * (D' + 1) + e.val)).run⟩ : Cacg Float CF (D' + 1))).run⟩
+        let (out, θ') := stepCommon fam h tie s z θ
+        let q := fin2 (eAux fam θ z)
+        let vals := (List.finRange (K' + 1)).flatMap fun k => (List.finRange (D' + 1)).map fun e => (θ'.comp k).vals e
+        -- gauge-free: the covariance `U diag(λ) Uᴴ`
+        let cov := (List.finRange (K' + 1)).flatMap fun k =>
+          let c := θ'.comp k
+          (List.finRange (D' + 1)).flatMap fun d => (List.finRange (D' + 1)).flatMap fun g =>
+            cxs (vsum fun e => c.vecs d e * (⟨c.vals e, 0⟩ : CF) * (⟨(c.vecs g e).re, -(c.vecs g e).im⟩ : CF))
+        some (out ++ " | " ++ fmtFloats q ++ " | " ++ fmtFloats vals ++ " | " ++ fmtFloats cov)
+    | _ => none
 
 end Driver
